@@ -111,7 +111,7 @@ def judgeGeom (g : BGeom) (rhs : Tok) : String :=
   | some a =>
     let inHyp := noNil g
     let boxesOk := boxesNonEmpty gk
-    let cls := cls0 ++ (if !inHyp then "-nil-outside" else if !boxesOk then "-emptybox-outside" else "")
+    let cls := cls0 ++ (if !inHyp then "-nil-outside" else if !boxesOk then "-emptybox" else "")
     let vs := vertices g
     -- the specification, on the implementation's answers
     let spec : Option String :=
@@ -131,8 +131,7 @@ def judgeGeom (g : BGeom) (rhs : Tok) : String :=
           match kbox q with
           | none => some "Bounds-NaN"
           | some b =>
-            if !boxesOk then none
-            else if !isEnvelopeB (vertices gk) b then some "Bounds-is-not-the-envelope-of-the-vertices"
+            if !isEnvelopeB (vertices gk) b then some "Bounds-is-not-the-envelope-of-the-vertices"
             else if !a.again then some "second-Bounds-call-differs"
             else none
     match spec with
@@ -221,13 +220,12 @@ def judgeLine (line : String) : String :=
     match pTwo t with
     | some (a, some b, _) =>
       let cls := "ovl-" ++ boxRel a b
-      let inHyp := !emptyB a && !emptyB b
       let want := sharePointB a b
       let m1 := a.overlaps b
       let m2 := b.overlaps a
-      if inHyp && rhs != [toString want, toString want] then s!"SPEC {cls} Overlaps={" ".intercalate rhs}-but-share-a-point={want}"
+      if rhs != [toString want, toString want] then s!"SPEC {cls} Overlaps={" ".intercalate rhs}-but-share-a-point={want}"
       else if rhs != [toString m1, toString m2] then s!"DIFF {cls} model={m1},{m2}"
-      else s!"OK {cls}{if inHyp then "" else "-outside"}"
+      else s!"OK {cls}"
     | _ => "DIFF ovl unparsable-input"
   | "int" :: t =>
     if hasNaNBox t then "OK skipped-nan" else
@@ -263,14 +261,13 @@ def judgeLine (line : String) : String :=
         match kbox q with
         | none => s!"SPEC {cls} NaN-in-result"
         | some j =>
-          let inHyp := canon a
           let specOk := match ob with
             | none => j == a
-            | some b => isJoinB a b j && (!(emptyB a && emptyB b) || j == a)
+            | some b => isJoinB a b j && (!(emptyB b) || j == a)
           if t1.contains "argmut" then s!"SPEC {cls} Extend-mutated-its-argument"
-          else if inHyp && !specOk then s!"SPEC {cls} Extend-is-not-the-join"
+          else if !specOk then s!"SPEC {cls} Extend-is-not-the-join"
           else if j != a.extend ob then s!"DIFF {cls} model-differs"
-          else s!"OK {cls}{if inHyp then "" else "-outside"}"
+          else s!"OK {cls}"
       | _ => s!"SPEC {cls} unexpected-result {" ".intercalate rhs}"
     | none => "DIFF ext unparsable-input"
   | "ext3" :: t =>
@@ -287,20 +284,21 @@ def judgeLine (line : String) : String :=
               | some (some aa, _) =>
                 match kbox l, kbox r, kbox ba, kbox aa with
                 | some l, some r, some ba, some aa =>
-                  let inHyp := canon a && canon b && canon c
+                  let allCanon := canon a && canon b && canon c
+                  let same (x y : KBox) : Bool := if allCanon then x == y else (emptyB x && emptyB y) || x == y
                   let cs := corners a ++ corners b ++ corners c
                   let join3 (j : KBox) : Bool := match cs with | [] => emptyB j | _ :: _ => tightB cs j
                   let ml := (a.extend (some b)).extend (some c)
                   let mr := a.extend (some (b.extend (some c)))
                   let mba := b.extend (some a)
                   let maa := a.extend (some a)
-                  if inHyp && !(join3 l) then s!"SPEC {cls} (a+b)+c-is-not-the-join"
-                  else if inHyp && !(join3 r) then s!"SPEC {cls} a+(b+c)-is-not-the-join"
-                  else if inHyp && l != r then s!"SPEC {cls} Extend-not-associative"
-                  else if inHyp && !(isJoinB a b ba) then s!"SPEC {cls} b+a-is-not-the-join"
-                  else if inHyp && aa != a then s!"SPEC {cls} Extend-not-idempotent"
+                  if !(join3 l) then s!"SPEC {cls} (a+b)+c-is-not-the-join"
+                  else if !(join3 r) then s!"SPEC {cls} a+(b+c)-is-not-the-join"
+                  else if !(same l r) then s!"SPEC {cls} Extend-not-associative"
+                  else if !(isJoinB a b ba) then s!"SPEC {cls} b+a-is-not-the-join"
+                  else if !(same aa a) then s!"SPEC {cls} Extend-not-idempotent"
                   else if l != ml || r != mr || ba != mba || aa != maa then s!"DIFF {cls} model-differs"
-                  else s!"OK {cls}{if inHyp then "" else "-outside"}"
+                  else s!"OK {cls}{if allCanon then "" else "-noncanonical"}"
                 | _, _, _, _ => s!"SPEC {cls} NaN-in-result"
               | _ => s!"SPEC {cls} unexpected-result"
             | _ => s!"SPEC {cls} unexpected-result"
